@@ -52,6 +52,29 @@ def cli_cases(draw):
                 force_down=draw(st.booleans()))
 
 
+@st.composite
+def sequence_cases(draw):
+    """2-4 command-line runs in the SAME directory; parameters often fall into the same file name
+    (probabilities within one percent bucket), sometimes they are identical."""
+    base = dict(seed=draw(st.integers(0, 30)), length=draw(st.integers(1, 5)), width=draw(st.integers(1, 5)),
+                lt=draw(st.sampled_from((0.3, 0.5, 0.07))), rb=0.1, lb=0.1, tb=0.1,
+                max_reward=draw(st.sampled_from((1, 6))), force_down=draw(st.booleans()))
+    runs = [base]
+    for _ in range(draw(st.integers(1, 3))):
+        r = dict(runs[-1])
+        what = draw(st.sampled_from(("lt_same_bucket", "lt_same_bucket", "tb_same_bucket", "same", "seed", "flag")))
+        if what == "lt_same_bucket":
+            r["lt"] = int(r["lt"] * 100) / 100 + draw(st.sampled_from((0.001, 0.004, 0.005, 0.009)))
+        elif what == "tb_same_bucket":
+            r["tb"] = 0.1 + draw(st.sampled_from((0.001, 0.005, 0.009)))
+        elif what == "seed":
+            r["seed"] = r["seed"] + 1
+        elif what == "flag":
+            r["force_down"] = not r["force_down"]
+        runs.append(r)
+    return dict(kind="sequence", runs=runs)
+
+
 def big_boards(tier):
     def gen():
         for (seed, n, p, fd) in ((1, 200, 0.3, False), (2, 200, 0.05, True), (3, 150, 0.9, False)):
@@ -94,7 +117,9 @@ def phases(tier):
                   note="last refused / first accepted value of each of the eight range checks, far-out values, -0.0, inf, nan"),
             Phase("big-boards-frequency", enum=big_boards(tier)),
             Phase("random-boards", strategy=board_cases, examples=(1500, 60000)),
-            Phase("command-line-twice", strategy=cli_cases, examples=(150, 4000))]
+            Phase("command-line-twice", strategy=cli_cases, examples=(150, 4000)),
+            Phase("command-line-sequences-one-directory", strategy=sequence_cases, examples=(120, 4000),
+                  note="what a run writes must not depend on what earlier runs left in inputs/")]
 
 
 def check_board(case, v):
@@ -204,7 +229,39 @@ def check_refuse(case, v):
             v.fail("cli-file-count", f"main({' '.join(args)}) left files {sorted(files)}")
 
 
+def check_sequence(case, v):
+    """Each run's file must hold exactly what the same parameters give in an empty directory."""
+    v.nontrivial = True
+    v.cls("sequence")
+    def argv(p):
+        return boards.cli_args(p["seed"], p["width"], p["length"], p["rb"], p["lb"], p["tb"], p["lt"], p["max_reward"],
+                               p["force_down"])
+    fresh = []
+    for p in case["runs"]:
+        k, e, files = boards.run_generator_cli(argv(p))
+        if k != "ok" or len(files) != 1:
+            v.fail("generator-raises", f"main({' '.join(argv(p))}) failed or wrote {sorted(files)}: {e}")
+            return
+        fresh.append(next(iter(files.items())))
+    names = [n for n, _ in fresh]
+    if len(set(names)) < len(names):
+        v.cls("runs_share_a_file_name")
+    boards.clean_scratch()
+    for i, p in enumerate(case["runs"]):
+        k, e, files = boards.run_generator_cli(argv(p), clean=False)
+        name, want = fresh[i]
+        if k != "ok":
+            v.fail("generator-raises", f"run {i + 1} of the sequence, main({' '.join(argv(p))}): {type(e).__name__}: {e}")
+            return
+        if files.get(name) != want:
+            v.fail("output-depends-on-earlier-runs", f"run {i + 1} of {len(case['runs'])} in one directory, "
+                                                     f"main({' '.join(argv(p))}): {name} differs from what the same "
+                                                     f"parameters write into an empty directory (earlier runs: "
+                                                     f"{[' '.join(argv(q)) for q in case['runs'][:i]]})")
+            return
+
+
 def check_case(case):
     v = Verdict()
-    {"board": check_board, "cli": check_cli, "refuse": check_refuse}[case["kind"]](case, v)
+    {"board": check_board, "cli": check_cli, "refuse": check_refuse, "sequence": check_sequence}[case["kind"]](case, v)
     return v
